@@ -110,6 +110,42 @@ marked SRCC, which wrap the methods above and leave them untouched for every oth
   `l.insert(0, x)` as rebinding of l, the truth value of an int / of text, `x = E('..')` for an exception class E followed later
   by `raise x` (only the class is kept), a `for` target that the body assigns again (renamed: `for x__item in ..: x = x__item`),
   BYTES_TO_BITS = the table regenerated into Gen/codec_gen.v (UNIT_TABLES), a `while` loop's fuel from FUEL as before.
+* the back-end switch.  ipv4.py / ipv6.py bind `_inet_aton`, `_inet_pton`, `_inet_ntop` (and AF_INET / AF_INET6) at import time, by
+  imports that sit under `if _sys.platform ..` / `try .. except`: from `socket` / `_socket` on the platform path, from
+  netaddr.fbsocket on the fallback path.  The translator checks that EVERY binding of such a name in the module is an import of
+  the same function from one of these modules (SRCC_SOCKET, srcc_import_only) and reads a call by function and family:
+  `_inet_aton(s)` = py_inet_aton s, `_inet_pton(AF_INET, s)` = py_inet_pton4 be s, `_inet_pton(AF_INET6, s)` = py_inet_pton6 be s,
+  `_inet_ntop(AF_INET6, p)` = py_inet_ntop6 be p (Model/SrcPreludeText.v: Platform = the named oracles Std4 / Std6 of
+  Model/IpText.v, Fallback = the hand model of Model/FbSocket.v, as in Model/AddrText.v; inet_aton is the platform function on
+  both paths).  Which path is taken is NOT decided by the translator: a definition that makes such a call (or calls one that does)
+  takes the back-end as its first parameter `(be : py_backend)`, exactly like the hand model.  A socket call made as a
+  statement is evaluated for its exception only.  INET_PTON / ZEROFILL are read from netaddr/core.py (`X = NAME = <int>`).
+* try forms (outside loops): `try: body / except Exception: H` and the bare `except:` catch every Python exception class of
+  the model but let the modelling devices OutOfFuel / Unsupported through: H = `raise E(..)` with a body that returns on every
+  path -> py_except_all E (body) is the function's result; H = `raise E(..)` with a body that only assigns -> do <assigned> <-
+  py_except_all E (body); H = `return <literal>` / assignments of literals to names bound before -> py_except_value <H's values>
+  (body) (a name the body assigns must not be read afterwards unless H assigns it too).  `try: .. / except E1: raise E2` may now
+  contain loops (no return / break / continue in it).
+* further: `a and b` / `a or b` whose second operand can raise -> `if a then <b> else Ok false` (resp. true) in outcome;
+  `a, b = <list>` -> ValueError unless the list has that many items; `x = g(l.pop())` -> the pop first (`l__popped`);
+  `'::' in s` / `s.split('::')` = the hand models py_contains_dc / py_split_dc of Model/IpText.v (validated against CPython by
+  the c01_split_dc command), `'<one char>' in s` = contains_char, other `a in b` on text = the substring test py_str_in;
+  '<ASCII literal>'.encode() = its byte values, `b * n` on bytes, `_bytes_join(l)` = concat, `_is_str(x)` decided by the type
+  (also for bytes), `isinstance(<text>, _str_type)` true (compat binds _str_type = str); a comprehension variable that is bound
+  elsewhere in the function is renamed inside the comprehension (its own scope in Python 3), `for` targets that several loops
+  share are renamed (`x__item`, `x__item2`, ..); `[]` is written `@nil <type>` once its element type is known.
+* an IPv6 dialect class (parameter declared `optcls6`, or the class name as an argument) is the pair (word_fmt, compact) of its
+  class attributes, read through the bases into a generated constant; `d.word_fmt % n` = py_format1 (the two formats of the
+  dialect classes, anything else Unsupported).
+* a local that is assigned None somewhere, something else somewhere and compared with None somewhere holds None or an int
+  (option Z): `x = None` / `x = e` = None / Some e, `x is None`, `None + int` = TypeError, a slice bound of that kind is Python's
+  missing bound; tuple displays of Coq values; `l.sort(key=lambda x: e)` = py_sort_asc (stable insertion sort) or, for a
+  None-or-int key, py_sort_optkey (TypeError as soon as two items are compared with a None key).
+* bytes_to_bits: `for x in range(..)` whose variable the body reads iterates over list(range(..)) = py_range a b c (literal step),
+  `_range(..)` likewise (compat: list(range(..))); `n * [None]` = a list of n None-or-text slots, `l[i] = e` on it = py_list_set
+  (IndexError), which REBINDS l (assigned_names counts item assignment); `''.join(l)` on it = py_join_opt (TypeError on None).
+Trusted additionally for SRCC: the tables SRCC_UNITS SRCC_SOCKET SRCC_SOCKET_MODULES SRCC_SHARED_CONSTS SRCC_TABLE_TERM, the
+declared parameter types, Model/SrcPreludeText.v, and the reading of compat._str_type / _is_str / _bytes_join / _range above.
 """
 import ast
 import os
